@@ -74,6 +74,7 @@ type VC struct {
 	bseqSrc    map[Term][3]Term // Bytes constant -> (array, offset, length) it abstracts
 	freshRefs  map[Term]int     // reference terms produced by an allocation -> name counter at creation
 	freshFloor int              // name counter when the innermost loop discovery started (0 = none)
+	nondetSites []string        // calls to clock / randomness / environment met while executing (C12)
 	oldWrites  map[string]bool  // heaps written at a possibly pre-existing object (reset per loop discovery)
 	unsupported []string
 	stack      []string
